@@ -131,12 +131,13 @@ class RangeNode(OperandNode):
     """Represents a spreadsheet cell, range, named_range."""
 
     def get_cells(self):
-        cells = utils.resolve_ranges(self.tvalue, default_sheet='')[1]
+        cells = utils.resolve_ranges(self.address, default_sheet='')[1]
         return cells[0] if len(cells) == 1 else cells
 
     @property
     def address(self):
-        return self.tvalue
+        # Absolute and relative references denote the same cell.
+        return self.tvalue.replace('$', '')
 
     def full_address(self, context):
         addr = self.address
